@@ -354,4 +354,51 @@ theorem lists_of_pages (d : Db) (k : Nat) (h : ∀ x ∈ d.pages, listsOk k x.2 
   have := h _ (get_mem _ _ _ hp)
   simpa [listsOk] using this
 
+/-! ### the two WAL scans select the same roots -/
+
+/-- the fields the two scan states share -/
+def RootsRel (s : VRoots) (e : ERoots) : Prop :=
+  s.epoch = e.epoch ∧ s.segments = e.segments ∧ s.props = e.props ∧ s.stats = e.stats
+
+theorem step_rel (o : ScanOps) (s : VRoots) (e : ERoots) (h : RootsRel s e) (r : Rec) :
+    RootsRel (vacuumStep o s r) (engineStep o e r) := by
+  obtain ⟨h1, h2, h3, h4⟩ := h
+  cases r with
+  | manifest ep segs p st =>
+    simp only [vacuumStep, engineStep]
+    rw [← h1]
+    by_cases hc : cmpHolds o.manifestCmp ep s.epoch = true
+    · simp only [hc, if_true]; exact ⟨rfl, rfl, rfl, rfl⟩
+    · simp only [hc]; first | exact ⟨h1, h2, h3, h4⟩ | exact ⟨rfl, h2, h3, h4⟩
+  | checkpoint up ep p st =>
+    simp only [vacuumStep, engineStep]
+    rw [← h1]
+    by_cases hc : cmpHolds o.checkpointCmp ep s.epoch = true
+    · simp only [hc, if_true]; first | exact ⟨rfl, h2, rfl, rfl⟩ | exact ⟨h1, h2, rfl, rfl⟩
+    · simp only [hc]; first | exact ⟨h1, h2, h3, h4⟩ | exact ⟨rfl, h2, h3, h4⟩
+  | other => exact ⟨h1, h2, h3, h4⟩
+
+theorem ops_rel (o : ScanOps) : ∀ (ops : List Rec) (s : VRoots) (e : ERoots), RootsRel s e →
+    RootsRel (ops.foldl (vacuumStep o) s) (ops.foldl (engineStep o) e)
+  | [], s, e, h => h
+  | r :: rs, s, e, h => ops_rel o rs _ _ (step_rel o s e h r)
+
+theorem log_rel (o : ScanOps) : ∀ (log : List Tx) (s : VRoots) (e : ERoots), RootsRel s e →
+    RootsRel (log.foldl (fun s tx => tx.ops.foldl (vacuumStep o) s) s)
+      (log.foldl (fun s tx => tx.ops.foldl (engineStep o) { s with maxTxid := max s.maxTxid tx.txid }) e)
+  | [], s, e, h => h
+  | tx :: rest, s, e, h => by
+    simp only [List.foldl_cons]
+    apply log_rel o rest
+    apply ops_rel o tx.ops
+    exact ⟨h.1, h.2.1, h.2.2.1, h.2.2.2⟩
+
+/-- **for every log**: with the same comparison operators vacuum's scan and the engine's recovery
+    scan end with the same epoch, segment list, property root and statistics root -/
+theorem scan_agree (o : ScanOps) (log : List Tx) : (vacuumScan o log).roots = (engineScan o log).roots := by
+  have h := log_rel o log ⟨o.initEpoch, [], 0, 0⟩ ⟨o.initEpoch, [], 0, 0, 0, 0⟩ ⟨rfl, rfl, rfl, rfl⟩
+  unfold vacuumScan engineScan VRoots.roots ERoots.roots
+  obtain ⟨_, h2, h3, h4⟩ := h
+  rw [h2, h3, h4]
+
 end Nervus.Vacuum
